@@ -397,13 +397,15 @@ def connTxs (id : Nat) : Nat → List Nat → List Nat → Option (List Nat)
   | _, [], u => some u
   | j, o :: os, u => if o ∈ u then connTxs id (j + 1) os (ins (8 * id + j) (u.filter (· ≠ o))) else none
 
-def createdBy (b : Blk) : List Nat := (List.range (b.spends.length + 1)).map (fun j => 8 * b.id + j)
-
+/-- Sets of outpoints with the spend journal kept as a stack of the states the
+connected blocks were applied to: `conn` computes the new set and journals the
+old one, `disc` restores the journaled state — what `disconnectTransactions` does
+with the stxos of the block.  Lawful by construction (`Props`). -/
 def SetAlg : UtxoAlg where
-  U := List Nat
-  empty := []
-  ok b u := !b.bad && (connTxs b.id 1 b.spends u).isSome
-  conn b u := ins (8 * b.id) ((connTxs b.id 1 b.spends u).getD u)
-  disc b u := (b.spends.filter (· ∉ createdBy b)).foldl (fun u o => ins o u) (u.filter (· ∉ createdBy b))
+  U := List Nat × List (List Nat)
+  empty := ([], [])
+  ok b u := !b.bad && (connTxs b.id 1 b.spends u.1).isSome
+  conn b u := (ins (8 * b.id) ((connTxs b.id 1 b.spends u.1).getD u.1), u.1 :: u.2)
+  disc _ u := (u.2.headD [], u.2.tail)
 
 end BV.C04
